@@ -26,6 +26,9 @@ pub fn instants(rng: &mut Rng, extra: usize) -> Vec<NaiveDateTime> {
         for f in [0u32, 999_999_999, 1_500_000_000] { if !(n == MAX_DAY && s == 86_399 && f >= 1_000_000_000) { v.push(mk_ndt(n, s, f)); } }
     }
     for _ in 0..extra { v.push(mk_ndt(rng.range(MIN_DAY, MAX_DAY), rng.range(0, 86_399) as u32, rng.range(0, 999_999_999) as u32)); }
+    // every binary scale of the range (thinned in the quick tier), near midnight so that offsets move the date
+    let sd = scale_days();
+    for (i, n) in sd.iter().enumerate() { if extra >= 1000 || i % 6 == 0 { v.push(mk_ndt(*n, if i % 2 == 0 { 1_800 } else { 84_600 }, 0)); } }
     v
 }
 
